@@ -268,12 +268,12 @@ Section Load.
   Definition st_bt := csv_stage (p_rec "bluetooth") always (sig_row_ok "bluetooth" 5 3) keep.
 
   (* --- gnss / accelerometer / gyroscope / magnetic: timestamp, device, data*.
-         records_gnss.txt is not even opened when no gnss sensor is declared *)
+         (records_gnss.txt is read like the others, also when no gnss sensor is declared: its rows are then
+          all filtered out, after the timestamp conversion) *)
   Definition gen_row_ok (ty : string) (c : ctx) (r : list string) : bool :=
     (Nat.leb 2 (List.length r)) && is_int L (nth_s 0 r) &&
     (if memb (nth_s 1 r) (ids_of_type c ty) then rec_ok L ty (skipn 2 r) else true).
-  Definition nonempty {A} (l : list A) : bool := match l with [] => false | _ => true end.
-  Definition st_gnss := csv_stage (p_rec "gnss") (fun c => nonempty (ids_of_type c "gnss")) (gen_row_ok "gnss") keep.
+  Definition st_gnss := csv_stage (p_rec "gnss") always (gen_row_ok "gnss") keep.
   Definition st_generic (ty : string) := csv_stage (p_rec ty) always (gen_row_ok ty) keep.
 
   (* --- reconstruction, only when the version line says "current" *)
